@@ -18,7 +18,8 @@ From UV.Base Require Import Cop Res.
 From UV.Gen Require Import Tables.
 From UV.Py Require Import PyStr.
 From UV.Vers Require Import Model VersText.
-From UV.Native Require Import Advisory AdvisoryProofs.
+From UV.Native Require Import Advisory AdvisoryProofs SnykProofs.
+From UV.Schemes Require Import Common Generic.
 Import ListNotations.
 Local Open Scope list_scope.
 
@@ -54,7 +55,24 @@ Example C15_nonvacuous :
   vplain (s2l "1.2.3") = true /\ spelling_ok native_table_RpmVersionRange "<>" = true.
 Proof. vm_compute. repeat split. Qed.
 
+(* Snyk: an item written as comma-separated clauses "<spelling><version>" (blanks anywhere) converts to exactly the
+   constraints it states; the item is split at the commas after its blanks are removed *)
+Theorem C15_snyk_item :
+  forall (V : Type) (vctor : str -> res V) (item : str) (pieces : list str) (cs : list (constr V)),
+    mem_c c_comma item = true ->
+    split_c c_comma (replace_space (strip_ws item)) = pieces ->
+    Forall2 (clause_of V vctor) pieces cs ->
+    snyk_item V vctor item = Ok cs.
+Proof. exact snyk_item_rendered. Qed.
+
+Example C15_snyk_item_inhabited :
+  snyk_item str gen_ctor (list_ascii_of_string ">= 1.0 , <2.0,!= 1.5") =
+    Ok [C GE (list_ascii_of_string "1.0"); C LT (list_ascii_of_string "2.0"); C NE (list_ascii_of_string "1.5")].
+Proof. vm_compute. reflexivity. Qed.
+
 Print Assumptions C15_comparator_tables_read_every_spelling_as_itself.
 Print Assumptions C15_splitter_returns_the_stated_comparator_and_version.
 Print Assumptions C15_github_clause.
 Print Assumptions C15_github_expression.
+Print Assumptions C15_snyk_item.
+Print Assumptions C15_snyk_item_inhabited.
